@@ -1,6 +1,7 @@
 package checks
 
 import (
+	"encoding/json"
 	"fmt"
 	"sync/atomic"
 
@@ -267,6 +268,82 @@ func cloneStore(w *world.World) *env.Store {
 		s.M[n] = b
 	}
 	return s
+}
+
+// structC15: struct keys (ordered by a comparator of their own, layered through the configured marshaler) in a
+// ruler of layers 0..4; the full version against the version without one key, for every key, both directions,
+// each tree with a marshaler of its own. checkDiffCost then lets every single Marshal call of either side fail,
+// and lets either side's marshaler fail from every call on; diffs that still report success keep the bound.
+func structC15(run *report.Run, acc *pairAcc) {
+	var ruler []uint8
+	for i := 1; i < 128; i++ {
+		l := uint8(0)
+		for x := i; x%2 == 0; x /= 2 {
+			l++
+		}
+		ruler = append(ruler, l)
+	}
+	ruler = append(ruler, 0) // 128 = 2^7 keys of layers 0..6: one more entry adds a level
+	cfg := world.StructCfg(2, ruler, ref.FormatBinary, "none")
+	cfg.CustomCompare = true
+	cfg.Name = "struct-keys-failing-marshaler/struct keys, ruler of 128/bf2/bin/none"
+	base, err := buildBig(cfg, nil, nil)
+	if err != nil {
+		run.HarnessError("%s: %v", cfg.Name, err)
+		return
+	}
+	// two more keys, above every key of the ruler in layer: one ordered before all of them, one after all of
+	// them (the version with such a key is one top node over the root of the version without it)
+	for pi, a := range []string{"", "zzzz"} {
+		for i := 0; ; i++ {
+			k := world.SKey{A: a, B: i}
+			kb, _ := json.Marshal(k)
+			if ref.BlobLayer(kb, 2) >= 8 {
+				cfg.Probes[pi] = k
+				break
+			}
+		}
+	}
+	var pairs int64
+	nk := len(cfg.Keys)
+	parallelFor(nk+2, func(k int) {
+		var other *bigTree
+		var err error
+		if k < nk {
+			other, err = buildBig(cfg, map[int]bool{k: true}, nil)
+		} else {
+			other, err = buildBig(cfg, nil, []int{k - nk})
+		}
+		if err != nil {
+			return
+		}
+		st := cloneStore(base.w)
+		for _, nm := range other.w.Store.Names() {
+			b, _ := other.w.Store.Has(nm)
+			st.M[nm] = b
+		}
+		mk := func(bt *bigTree) *version {
+			w2 := *base.w
+			w2.Store = st
+			w2.Msh = &env.Counter{}
+			w2.Cmp = &env.Counter{}
+			t, err := bt.root.LoadMast(ctx, w2.RemoteConfig(st, false))
+			if err != nil {
+				return nil
+			}
+			return &version{w: &w2, t: t, root: bt.root, link: linkOf(bt.root), reach: bt.reach, c: world.Contents{M: map[int]int{}, Size: bt.root.Size}}
+		}
+		a, b := mk(base), mk(other)
+		if a == nil || b == nil {
+			return
+		}
+		atomic.AddInt64(&pairs, 2)
+		desc := []string{cfg.Name, fmt.Sprintf("all %d keys (height %d) versus the same without key #%d, or (#%d, #%d) with one more key of layer >= 8 before / after all of them (height %d)", nk, base.root.Height, k, nk, nk+1, other.root.Height)}
+		acc.add(cfg, "C15", checkDiffCost(cfg, a, b), desc)
+		acc.add(cfg, "C15", checkDiffCost(cfg, b, a), desc)
+	})
+	acc.pairs += pairs
+	run.Parts = append(run.Parts, map[string]interface{}{"part": "struct keys, 128 keys of layers 0..6 plus a layer-8 key before / after all of them: every one-key change, both directions, every Marshal call failing (alone, and from that call on) on either side", "config": cfg.Name, "pairs": pairs})
 }
 
 // bigC15: every single-key and a band of two-key modifications of a large tree.
